@@ -10,7 +10,7 @@ CONSTANTS
   OrderN = @ORDERN@
   Selfs = @SELFS@
   Payloads = @PAYLOADS@
-INVARIANTS TypeOK Closed NoSelf Canon Mirror Symm Between WeightOK DenseNoAbsent RevLaw DTypeOK Contiguous Unbuilt PlainObj DEmitState
+INVARIANTS TypeOK Closed NoSelf Canon Mirror Symm Between WeightOK DenseNoAbsent RevLaw ViewBase ViewUndirect ViewWeight ViewComplement DTypeOK Contiguous Unbuilt PlainObj DEmitState
 PROPERTIES DPanicLeavesUnchanged
 VIEW DView
 CHECK_DEADLOCK FALSE
